@@ -1,6 +1,7 @@
 // C14 correspondence harness: random operation histories against the real pkg/store.DefaultStore
 // (on a recording datastore; a share of cases on a real on-disk badger with true close/reopen),
-// with crashes inside operations.  Writes cases_C14.v (for Model/Store.v) and result.json (oracle).
+// with crashes inside operations and transient write faults inside operations (one datastore write attempt
+// returns an error, the store lives on).  Writes cases_C14.v (for Model/Store.v) and result.json (oracle).
 package c14
 
 import (
@@ -12,6 +13,7 @@ import (
 	"math/rand"
 	"os"
 	"path/filepath"
+	"sort"
 	"strings"
 	"testing"
 	"time"
@@ -157,9 +159,9 @@ type Op struct {
 	Junk bool   `json:"junk,omitempty"` // byhash on a hash that was never stored
 }
 type Item struct {
-	T  string `json:"t"` // op reopen crash
+	T  string `json:"t"` // op reopen crash fault
 	Op *Op    `json:"op,omitempty"`
-	Kc int    `json:"kc,omitempty"`
+	Kc int    `json:"kc,omitempty"` // crash: atomic writes that survive; fault: the write attempt (from 0) that returns an error
 }
 type Replay struct {
 	Seed    int64  `json:"seed"`
@@ -213,7 +215,62 @@ func genHistory(r *rand.Rand, p *pool, maxLen int) []Item {
 				op = &Op{K: "save", H: r.Intn(len(p.hdrs)), D: r.Intn(len(p.datas)), S: r.Intn(len(p.sigs))}
 			}
 			h = append(h, Item{T: "crash", Op: op, Kc: r.Intn(3)})
+		case x < 26:
+			// a write fault inside any operation (half of the time a writing one); mostly its first write attempt
+			op := genOp(r, p)
+			if r.Intn(2) == 0 {
+				op, _ = genWriteOp(r, p)
+			}
+			k := 0
+			if r.Intn(5) == 0 {
+				k = 1
+			}
+			h = append(h, Item{T: "fault", Op: op, Kc: k})
 		default:
+			h = append(h, Item{T: "op", Op: genOp(r, p)})
+		}
+	}
+	return h
+}
+
+// a writing operation and the read that observes what it writes
+func genWriteOp(r *rand.Rand, p *pool) (*Op, *Op) {
+	switch r.Intn(4) {
+	case 0:
+		return &Op{K: "setheight", N: p.heights[r.Intn(len(p.heights))]}, &Op{K: "height"}
+	case 1:
+		h := r.Intn(len(p.hdrs))
+		rd := &Op{K: "getblock", N: p.hdrs[h].Height()}
+		if r.Intn(3) == 0 {
+			rd = &Op{K: "byhash", H: h}
+		}
+		return &Op{K: "save", H: h, D: r.Intn(len(p.datas)), S: r.Intn(len(p.sigs))}, rd
+	case 2:
+		return &Op{K: "updstate", S: r.Intn(len(p.states))}, &Op{K: "getstate"}
+	default:
+		k := p.keys[r.Intn(len(p.keys))]
+		return &Op{K: "setmeta", Key: k, V: r.Intn(len(p.vals))}, &Op{K: "getmeta", Key: k}
+	}
+}
+
+// the fault / read / retry / read / reopen / read stream: for each kind of writing operation, its write fails once,
+// what it would have written is read, the caller retries (mostly), reads again, the database is closed and
+// reopened (mostly) and read again - between random operations.
+func genFaultStream(r *rand.Rand, p *pool) []Item {
+	var h []Item
+	for i, n := 0, r.Intn(8); i < n; i++ {
+		h = append(h, Item{T: "op", Op: genOp(r, p)})
+	}
+	for j, rounds := 0, 1+r.Intn(3); j < rounds; j++ {
+		w, rd := genWriteOp(r, p)
+		h = append(h, Item{T: "fault", Op: w, Kc: 0}, Item{T: "op", Op: rd})
+		if r.Intn(4) > 0 {
+			h = append(h, Item{T: "op", Op: w}, Item{T: "op", Op: rd})
+		}
+		if r.Intn(3) > 0 {
+			h = append(h, Item{T: "reopen"}, Item{T: "op", Op: rd})
+		}
+		for i, n := 0, r.Intn(3); i < n; i++ {
 			h = append(h, Item{T: "op", Op: genOp(r, p)})
 		}
 	}
@@ -255,6 +312,7 @@ func hname(i uint64) string { return fmt.Sprintf("H%d", i) }
 type runner struct {
 	p     *pool
 	cds   *crashds.DS
+	fds   *faultDS // store -> fds (transient write faults) -> cds (write log, crashes) -> inner
 	inner ds.Batching
 	st    store.Store
 	disk  string
@@ -279,7 +337,8 @@ func newRunner(p *pool, disk bool) (*runner, error) {
 		r.cds = crashds.New()
 		r.inner = r.cds.Batching
 	}
-	r.st = store.New(r.cds)
+	r.fds = newFaultDS(r.cds)
+	r.st = store.New(r.fds)
 	return r, nil
 }
 
@@ -306,7 +365,8 @@ func (r *runner) reopen() error {
 	} else {
 		_ = r.st.Close()
 	}
-	r.st = store.New(r.cds)
+	r.fds = newFaultDS(r.cds)
+	r.st = store.New(r.fds)
 	return nil
 }
 
@@ -407,12 +467,71 @@ type oracle struct {
 	meta     map[string]int
 	viol     []string // signatures
 	violWhat []string
+
+	// what Height() last reported, and whether the process was restarted (reopen / crash) since
+	reported       uint64
+	hasReported    bool
+	restartedSince bool
+	// what operations that FAILED with a write error tried to write (nothing of it may ever be read)
+	failedHeights map[uint64]bool
+	failedBlocks  map[uint64][]refBlock
+	failedStates  map[int]bool
+	failedMeta    map[string]map[int]bool
 }
 
 func newOracle(p *pool) *oracle {
-	return &oracle{p: p, blocks: map[uint64]refBlock{}, state: -1, meta: map[string]int{}}
+	return &oracle{p: p, blocks: map[uint64]refBlock{}, state: -1, meta: map[string]int{},
+		failedHeights: map[uint64]bool{}, failedBlocks: map[uint64][]refBlock{}, failedStates: map[int]bool{}, failedMeta: map[string]map[int]bool{}}
 }
-func (o *oracle) fail(sig, what string) { o.viol = append(o.viol, sig); o.violWhat = append(o.violWhat, what) }
+
+func (o *oracle) restarted() { o.restartedSince = true }
+
+// a read that is not the latest acknowledged write: if it is what a FAILED operation tried to write, say so
+func (o *oracle) readSig(def string, fromFailed bool) string {
+	if fromFailed {
+		return "failed-write-visible"
+	}
+	return def
+}
+
+func (o *oracle) failedBlock(n uint64, match func(refBlock) bool) bool {
+	for _, b := range o.failedBlocks[n] {
+		if match(b) {
+			return true
+		}
+	}
+	return false
+}
+
+// an operation ran with a write fault armed.  refused = the fault was met (one of its write attempts returned an
+// error).  A met fault must surface as an error and leave everything as it was; an unmet one is an ordinary operation.
+func (o *oracle) observeFault(op *Op, got out, refused bool) {
+	if !refused {
+		o.observe(op, got)
+		return
+	}
+	if got.kind != "err" {
+		o.fail("write-error-swallowed", fmt.Sprintf("%s: a datastore write returned an error but the operation returned %v", op.K, got))
+	}
+	switch op.K {
+	case "setheight":
+		o.failedHeights[op.N] = true
+	case "save":
+		n := o.p.hdrs[op.H].Height()
+		o.failedBlocks[n] = append(o.failedBlocks[n], refBlock{op.H, op.D, op.S})
+	case "updstate":
+		o.failedStates[op.S] = true
+	case "setmeta":
+		if o.failedMeta[op.Key] == nil {
+			o.failedMeta[op.Key] = map[int]bool{}
+		}
+		o.failedMeta[op.Key][op.V] = true
+	}
+}
+func (o *oracle) fail(sig, what string) {
+	o.viol = append(o.viol, sig)
+	o.violWhat = append(o.violWhat, what)
+}
 
 func (o *oracle) byHash(hidx int, junk bool) (refBlock, bool) {
 	if junk {
@@ -433,8 +552,13 @@ func (o *oracle) observe(op *Op, got out) {
 		if got.kind != "unit" {
 			o.fail("op-failed", "SetHeight returned an error")
 		}
-		if op.N > o.height {
+		if op.N > o.height && got.kind == "unit" {
 			o.height = op.N
+			for f := range o.failedHeights {
+				if f <= op.N {
+					delete(o.failedHeights, f)
+				}
+			}
 		}
 	case "height":
 		if got.kind != "height" || got.a != o.height {
@@ -442,34 +566,52 @@ func (o *oracle) observe(op *Op, got out) {
 			if got.kind == "height" && got.a < o.height {
 				sig = "height-decreased"
 			}
+			sig = o.readSig(sig, got.kind == "height" && o.failedHeights[got.a])
 			o.fail(sig, fmt.Sprintf("Height()=%v want %d", got, o.height))
+		}
+		// independent of the reference: what Height() reported is never taken back
+		if got.kind == "height" {
+			if o.hasReported && got.a < o.reported {
+				if o.restartedSince {
+					o.fail("reported-height-lost-on-restart", fmt.Sprintf("Height() reported %d, after closing and reopening the database it reports %d", o.reported, got.a))
+				} else {
+					o.fail("height-decreased", fmt.Sprintf("Height() reported %d, later %d", o.reported, got.a))
+				}
+			}
+			o.reported, o.hasReported, o.restartedSince = got.a, true, false
 		}
 	case "save":
 		if got.kind != "unit" {
 			o.fail("op-failed", "SaveBlockData returned an error")
 		}
-		o.blocks[o.p.hdrs[op.H].Height()] = refBlock{op.H, op.D, op.S}
+		if got.kind == "unit" {
+			o.blocks[o.p.hdrs[op.H].Height()] = refBlock{op.H, op.D, op.S}
+		}
 	case "getblock":
 		b, ok := o.blocks[op.N]
 		if ok != (got.kind == "block") || (ok && (got.a != uint64(b.h) || got.b != uint64(b.d))) {
-			o.fail("read-by-height-not-latest-write", fmt.Sprintf("GetBlockData(%d)=%v want %v %v", op.N, got, b, ok))
+			o.fail(o.readSig("read-by-height-not-latest-write", got.kind == "block" && o.failedBlock(op.N, func(f refBlock) bool { return got.a == uint64(f.h) && got.b == uint64(f.d) })),
+				fmt.Sprintf("GetBlockData(%d)=%v want %v %v", op.N, got, b, ok))
 		}
 	case "getheader":
 		b, ok := o.blocks[op.N]
 		if ok != (got.kind == "header") || (ok && got.a != uint64(b.h)) {
-			o.fail("read-by-height-not-latest-write", fmt.Sprintf("GetHeader(%d)=%v want %v %v", op.N, got, b, ok))
+			o.fail(o.readSig("read-by-height-not-latest-write", got.kind == "header" && o.failedBlock(op.N, func(f refBlock) bool { return got.a == uint64(f.h) })),
+				fmt.Sprintf("GetHeader(%d)=%v want %v %v", op.N, got, b, ok))
 		}
 	case "getsig":
 		b, ok := o.blocks[op.N]
 		if ok != (got.kind == "sig") || (ok && got.a != uint64(b.s)) {
-			o.fail("read-by-height-not-latest-write", fmt.Sprintf("GetSignature(%d)=%v want %v %v", op.N, got, b, ok))
+			o.fail(o.readSig("read-by-height-not-latest-write", got.kind == "sig" && o.failedBlock(op.N, func(f refBlock) bool { return got.a == uint64(f.s) })),
+				fmt.Sprintf("GetSignature(%d)=%v want %v %v", op.N, got, b, ok))
 		}
 	case "byhash":
 		b, ok := o.byHash(op.H, op.Junk)
 		if got.kind == "block" && !op.Junk && !bytes.Equal(o.p.hdrs[got.a%uint64(len(o.p.hdrs))].Hash(), o.p.hdrs[op.H].Hash()) {
 			o.fail("by-hash-returns-block-with-other-hash", fmt.Sprintf("GetBlockByHash(hash of H%d) returned H%d", op.H, got.a))
 		} else if ok != (got.kind == "block") || (ok && (got.a != uint64(b.h) || got.b != uint64(b.d))) {
-			o.fail("read-by-hash-not-latest-write", fmt.Sprintf("GetBlockByHash(H%d)=%v want %v %v", op.H, got, b, ok))
+			o.fail(o.readSig("read-by-hash-not-latest-write", got.kind == "block" && o.failedBlock(o.p.hdrs[op.H].Height(), func(f refBlock) bool { return got.a == uint64(f.h) && got.b == uint64(f.d) })),
+				fmt.Sprintf("GetBlockByHash(H%d)=%v want %v %v", op.H, got, b, ok))
 		}
 	case "sigbyhash":
 		b, ok := o.byHash(op.H, op.Junk)
@@ -484,20 +626,24 @@ func (o *oracle) observe(op *Op, got out) {
 		if got.kind != "unit" {
 			o.fail("op-failed", "UpdateState returned an error")
 		}
-		o.state = op.S
+		if got.kind == "unit" {
+			o.state = op.S
+		}
 	case "getstate":
 		if (o.state >= 0) != (got.kind == "state") || (o.state >= 0 && got.a != uint64(o.state)) {
-			o.fail("state-not-latest-write", fmt.Sprintf("GetState=%v want %d", got, o.state))
+			o.fail(o.readSig("state-not-latest-write", got.kind == "state" && o.failedStates[int(got.a)]), fmt.Sprintf("GetState=%v want %d", got, o.state))
 		}
 	case "setmeta":
 		if got.kind != "unit" {
 			o.fail("op-failed", "SetMetadata returned an error")
 		}
-		o.meta[op.Key] = op.V
+		if got.kind == "unit" {
+			o.meta[op.Key] = op.V
+		}
 	case "getmeta":
 		v, ok := o.meta[op.Key]
 		if ok != (got.kind == "bytes") || (ok && got.a != uint64(v)) {
-			o.fail("meta-not-latest-write", fmt.Sprintf("GetMetadata(%q)=%v want %d %v", op.Key, got, v, ok))
+			o.fail(o.readSig("meta-not-latest-write", got.kind == "bytes" && o.failedMeta[op.Key][int(got.a)]), fmt.Sprintf("GetMetadata(%q)=%v want %d %v", op.Key, got, v, ok))
 		}
 	}
 }
@@ -576,12 +722,15 @@ func (c *caseResult) keyName(k string) string {
 type caseResult struct {
 	keyIdx  map[string]int
 	keyDefs []string
-	outs   []out
-	image  []string // Coq (key, sval) terms
-	shapes []string
-	viol   []string
-	what   []string
-	err    error
+	outs    []out
+	image   []string // Coq (key, sval) terms
+	shapes  []string
+	faults  []string // the refused write attempts, in order
+	nMet    int      // write faults that were met / not met
+	nUnmet  int
+	viol    []string
+	what    []string
+	err     error
 }
 
 func runCase(p *pool, hist []Item, disk bool) (res *caseResult) {
@@ -609,22 +758,67 @@ func runCase(p *pool, hist []Item, disk bool) (res *caseResult) {
 			if err := r.reopen(); err != nil {
 				or.fail("reopen-failed", err.Error())
 			}
+			or.restarted()
 			res.outs = append(res.outs, out{kind: "none"})
+		case "fault":
+			r.fds.Arm(it.Kc)
+			o := r.exec(it.Op)
+			w := r.fds.Disarm()
+			or.observeFault(it.Op, o, w != nil)
+			res.outs = append(res.outs, o)
+			if w != nil {
+				res.nMet++
+				res.faults = append(res.faults, res.shapeOf(*w))
+			} else {
+				res.nUnmet++
+			}
 		case "crash":
 			r.cds.FailAfter = r.cds.Len() + it.Kc
 			_ = r.exec(it.Op)
 			r.cds.FailAfter = -1
-			r.st = store.New(r.cds) // the restarted process
+			r.st = store.New(r.fds) // the restarted process
+			or.restarted()
 			or.afterCrash(r, it.Op)
 			res.outs = append(res.outs, out{kind: "none"})
 		}
 	}
-	// final reads of everything the reference knows (durability / latest write)
-	for n := range or.blocks {
-		or.observe(&Op{K: "getblock", N: n}, r.exec(&Op{K: "getblock", N: n}))
-		or.observe(&Op{K: "getsig", N: n}, r.exec(&Op{K: "getsig", N: n}))
+	// final reads of everything the reference knows and of everything a failed operation tried to write (latest
+	// acknowledged write; nothing of a failed write) - then the database is closed and reopened and everything is
+	// read once more (everything acknowledged, and every height that was reported, survives)
+	finalReads := func() {
+		hs := map[uint64]bool{}
+		for n := range or.blocks {
+			hs[n] = true
+		}
+		for n := range or.failedBlocks {
+			hs[n] = true
+		}
+		var ns []uint64
+		for n := range hs {
+			ns = append(ns, n)
+		}
+		sort.Slice(ns, func(i, j int) bool { return ns[i] < ns[j] })
+		for _, n := range ns {
+			or.observe(&Op{K: "getblock", N: n}, r.exec(&Op{K: "getblock", N: n}))
+			or.observe(&Op{K: "getsig", N: n}, r.exec(&Op{K: "getsig", N: n}))
+		}
+		var ks []string
+		for k := range or.failedMeta {
+			ks = append(ks, k)
+		}
+		sort.Strings(ks)
+		for _, k := range ks {
+			or.observe(&Op{K: "getmeta", Key: k}, r.exec(&Op{K: "getmeta", Key: k}))
+		}
+		or.observe(&Op{K: "getstate"}, r.exec(&Op{K: "getstate"}))
+		or.observe(&Op{K: "height"}, r.exec(&Op{K: "height"}))
 	}
-	or.observe(&Op{K: "height"}, r.exec(&Op{K: "height"}))
+	finalReads()
+	if err := r.reopen(); err != nil {
+		or.fail("reopen-failed", err.Error())
+	}
+	or.restarted()
+	finalReads()
 	res.viol, res.what = append(res.viol, or.viol...), append(res.what, or.violWhat...)
 
 	dump, err := crashds.Dump(r.ctx, r.inner)
@@ -636,17 +830,21 @@ func runCase(p *pool, hist []Item, disk bool) (res *caseResult) {
 		res.image = append(res.image, fmt.Sprintf("(%s, %s)", res.keyName(projKey(e.Key)), decodeVal(p, e.Key, e.Value)))
 	}
 	for _, w := range r.cds.Log {
-		var ps []string
-		for _, pr := range w.Prims {
-			if pr.Del {
-				ps = append(ps, "SDel "+res.keyName(projKey(pr.Key)))
-			} else {
-				ps = append(ps, "SPut "+res.keyName(projKey(pr.Key)))
-			}
-		}
-		res.shapes = append(res.shapes, vgen.List(ps))
+		res.shapes = append(res.shapes, res.shapeOf(w))
 	}
 	return
+}
+
+func (c *caseResult) shapeOf(w crashds.Write) string {
+	var ps []string
+	for _, pr := range w.Prims {
+		if pr.Del {
+			ps = append(ps, "SDel "+c.keyName(projKey(pr.Key)))
+		} else {
+			ps = append(ps, "SPut "+c.keyName(projKey(pr.Key)))
+		}
+	}
+	return vgen.List(ps)
 }
 
 func decodeVal(p *pool, key string, v []byte) string {
@@ -765,6 +963,8 @@ func histCoq(p *pool, h []Item) string {
 			items = append(items, "IReopen")
 		case "crash":
 			items = append(items, fmt.Sprintf("ICrash (%s) %s", opCoq(p, it.Op), vgen.Nat(it.Kc)))
+		case "fault":
+			items = append(items, fmt.Sprintf("IFault (%s) %s", opCoq(p, it.Op), vgen.Nat(it.Kc)))
 		}
 	}
 	return vgen.List(items)
@@ -863,7 +1063,12 @@ func TestVerif(t *testing.T) {
 		p := newPool(r)
 		hist := j.hist
 		if hist == nil {
-			hist = genHistory(r, p, maxLen)
+			if j.c%4 == 3 {
+				hist = genFaultStream(r, p)
+				res.Count("history:fault-read-retry-reopen-stream")
+			} else {
+				hist = genHistory(r, p, maxLen)
+			}
 		}
 		cr := runCase(p, hist, j.disk)
 		if cr.err != nil {
@@ -895,6 +1100,8 @@ func TestVerif(t *testing.T) {
 		if over {
 			res.Count("history:overwrites-height-with-different-hash")
 		}
+		res.Distribution["fault:met(operation-returned-at-the-failed-write)"] += cr.nMet
+		res.Distribution["fault:not-met(operation-made-fewer-write-attempts)"] += cr.nUnmet
 		if j.disk {
 			res.Count("history:on-disk-badger")
 		}
@@ -926,8 +1133,8 @@ func TestVerif(t *testing.T) {
 		if ji%20 == 0 {
 			kp = vgen.List(keyPairs(p))
 		}
-		mod := fmt.Sprintf("Module C%d.\n%s\n%s\nDefinition c : scase := {| sc_hist := %s;\n sc_outs := %s;\n sc_image := %s;\n sc_shapes := %s |}.\nDefinition keys_ok : bool := forallb (fun e => String.eqb (fst e) (snd e)) %s.\nEnd C%d.",
-			ji, strings.Join(p.coqDefs(used), "\n"), strings.Join(cr.keyDefs, "\n"), hc, vgen.List(outs), vgen.List(cr.image), vgen.List(cr.shapes), kp, ji)
+		mod := fmt.Sprintf("Module C%d.\n%s\n%s\nDefinition c : scase := {| sc_hist := %s;\n sc_outs := %s;\n sc_image := %s;\n sc_shapes := %s;\n sc_faults := %s |}.\nDefinition keys_ok : bool := forallb (fun e => String.eqb (fst e) (snd e)) %s.\nEnd C%d.",
+			ji, strings.Join(p.coqDefs(used), "\n"), strings.Join(cr.keyDefs, "\n"), hc, vgen.List(outs), vgen.List(cr.image), vgen.List(cr.shapes), vgen.List(cr.faults), kp, ji)
 		defsAll = append(defsAll, mod)
 		cases = append(cases, fmt.Sprintf("(if C%d.keys_ok then C%d.c else bad_case)", ji, ji))
 		res.Replays[fmt.Sprint(ji)] = rp
@@ -936,10 +1143,10 @@ func TestVerif(t *testing.T) {
 		}
 	}
 	res.Distinct = len(distinct)
-	res.Rule = "histories of 1..maxLen items over store operations (26% saves, crashes inside operations with 0..2 atomic writes surviving, reopen) on pools of 8 heights x 1-3 headers each so that overwrites at one height with a different hash occur; every 25th case on a real on-disk badger with true close/reopen; non-trivial = at least 3 items and one save; distinct = distinct Coq history terms"
+	res.Rule = "histories of 1..maxLen items over store operations (26% saves, crashes inside operations with 0..2 atomic writes surviving, transient write faults inside operations = write attempt 0 or 1 of the operation returns an error once and the store stays open, reopen) on pools of 8 heights x 1-3 headers each so that overwrites at one height with a different hash occur; every 4th case is a fault / read / retry / read / reopen / read stream over the four writing operations between random operations; every history ends with reads of everything acknowledged and of everything a failed operation tried to write, a close/reopen, and the same reads again; every 25th case on a real on-disk badger with true close/reopen; non-trivial = at least 3 items and one save; distinct = distinct Coq history terms"
 	res.Cases = len(cases)
 	header := "From Coq Require Import String Ascii NArith List Bool.\nFrom Verif Require Import Base.KV Base.Keys Model.Store Check.StoreCheck."
-	defsAll = append([]string{"Definition bad_case : scase := {| sc_hist := []; sc_outs := [None]; sc_image := []; sc_shapes := [] |}."}, defsAll...)
+	defsAll = append([]string{"Definition bad_case : scase := {| sc_hist := []; sc_outs := [None]; sc_image := []; sc_shapes := []; sc_faults := [] |}."}, defsAll...)
 	path := filepath.Join(e.Out, "cases_C14.v")
 	if err := vgen.WriteCases(path, header, defsAll, "scase", cases, "mismatches"); err != nil {
 		t.Fatal(err)
